@@ -679,4 +679,9 @@ func TestCheck(t *testing.T) {
 	h.trailingCases()
 	h.replyCases()
 	h.fuzzCases()
+	r.Note("concurrent_exchanges", "additional family: 4..16 exchanges at the same time in one bubble, each client with its own domain target and argument values (escapes, 8-bit bytes), delivered in segments of 1..5 bytes; every front-end result must be the one of its own client")
+	for g := 0; g < r.Pick(8, 120); g++ {
+		g := g
+		r.Bubble(fmt.Sprintf("concurrent/%03d", g), func(c *mon.Case) { concurrentExchanges(c, r, 4+g%13, r.Sub("conc", g)) })
+	}
 }
